@@ -99,7 +99,7 @@ def history_one(args):
         for k, op in enumerate(sc['ops']):
             kind = op[0]
             res = None
-            if kind in ('confirm', 'deliver', 'park', 'chan-close', 'broker-close-chan', 'chan-reopen') and op[1] in gone:
+            if kind in ('confirm', 'deliver', 'park', 'chan-close', 'broker-close-chan', 'chan-reopen', 'late-frames') and op[1] in gone:
                 kind = 'skip'
                 res = 'skipped'
             try:
@@ -155,6 +155,14 @@ def history_one(args):
                     broker().close_channel(chans[op[1]].channel_id, 404, 'NOT_FOUND - gone')
                     ctx.quiesce()
                     sleep(0.02)
+                elif kind == 'late-frames':
+                    # frames for the channel's previous life that were still on their way when it closed (a delivery the broker
+                    # had already sent): they reach a closed, still registered channel object
+                    b = broker()
+                    b.send_content(chans[op[1]].channel_id, spec.Basic.Deliver(consumer_tag='previous-life', delivery_tag=1, redelivered=False,
+                                                                              exchange='', routing_key='q'),
+                                   spec.Basic.Properties(), b'stale' * 3, reply=False)
+                    ctx.quiesce()
                 elif kind == 'chan-reopen':
                     ch = chans[op[1]]
                     ch.open()
@@ -246,7 +254,9 @@ def history_one(args):
             if kind != 'to-timer':
                 sleep(0.001)                  # let whatever is runnable finish
             s = snap()
-            s['unsettled'] = kind == 'to-timer'   # the timer callback is running: not compared with the model
+            # the timer callback is running / frames of a previous life sit on a closed channel (the model's closed channels hold
+            # nothing; what matters is the state after the re-open): not compared with the model
+            s['unsettled'] = kind in ('to-timer', 'late-frames')
             s['op'] = list(op)
             s['res'] = res
             s['now'] = sched.now
@@ -497,7 +507,7 @@ def check(rep):
         extras = [o for o in (['confirm', 1], ['deliver', 1], ['park', 1]) if rng.random() < 0.6]
         rng.shuffle(extras)
         ops += extras
-        ops += [[rng.choice(['broker-close-chan', 'chan-close']), 1], ['chan-reopen', 1]]
+        ops += [[rng.choice(['broker-close-chan', 'chan-close']), 1]] + ([['late-frames', 1]] if rng.random() < 0.5 else []) + [['chan-reopen', 1]]
         if rng.random() < 0.5:
             ops += [['confirm', 1], ['broker-close-chan', 1], ['chan-reopen', 1]]
         ops.append(['close', 1, False])
